@@ -16,6 +16,7 @@ import Driver.Contracts
 import Driver.RewardsNode
 import Driver.Abi
 import Driver.Journal
+import Driver.ConsensusStore
 /-
 One line per handler object. The first handler that understands a line answers it.
 -/
@@ -47,7 +48,9 @@ def registry : List Obj := [
   rewardsNodeObj,
   pureObj pureAbi,
   pureObj pureArRecv,
-  mkObj ({} : JrSt) jrStep
+  mkObj ({} : JrSt) jrStep,
+  pureObj pureConsStore,
+  mkObj ({} : CsDbSt) csDbStep
 ]
 
 end ZV.Driver
